@@ -90,6 +90,14 @@ func BytesN(t *rapid.T, n int, label string) []byte {
 // UTF8N generates a valid UTF-8 string of exactly n bytes.
 func UTF8N(t *rapid.T, n int, label string) []byte {
 	out := make([]byte, 0, n)
+	// one string in ten starts with a character that text tools like to strip or to take for
+	// something else: the byte order mark (Windows tools write it), a space, a line break, a NUL
+	if n >= 3 && rapid.IntRange(0, 9).Draw(t, label+"_lead") == 0 {
+		lead := rapid.SampledFrom([]string{"\uFEFF", " ", "\n", "\x00", "\t", "\uFEFF\uFEFF"}).Draw(t, label+"_leadch")
+		if len(lead) <= n {
+			out = append(out, lead...)
+		}
+	}
 	if n <= 24 {
 		for len(out) < n {
 			r := rapid.SampledFrom([]rune{'a', 'Z', '0', ' ', '/', '-', '"', 0, 0x7F, 'é', 'ß', '€', '語', '😀'}).Draw(t, label)
